@@ -51,6 +51,7 @@ package gkvlite
 //@   inline
 
 //@ func (itemBa).render
+//@   overflow
 //@   props C14 C02
 //@   from: C14 anchors.state "item record: u32 total length, u32 key length, u32 value length, i32 priority (big endian)"
 //@   requires hlength >= 16
@@ -59,6 +60,7 @@ package gkvlite
 //@   ensures [C14] zero-tail: forall i in 16..hlength :: result[i] == 0
 
 //@ func (*itemBa).populate
+//@   overflow
 //@   props C14 C02
 //@   requires ds != nil && len(b) >= 16
 //@   modifies ds.length, ds.keyLength, ds.valLength, ds.priority
@@ -214,6 +216,7 @@ package gkvlite
 //@   inline
 
 //@ func (*Store).scanBackwardsForMagicEnd
+//@   overflow
 //@   props C03 C08 C07 C09 C19 C02
 //@   requires [C05,C18] nolocks: locks == emptyLocks()
 //@   from: C03 statement (most recent complete root); C08 (terminates); C07 sentence 1
@@ -234,6 +237,7 @@ package gkvlite
 //@   loop 0 decreases s.size
 
 //@ func (*Store).readRootsEnd
+//@   overflow
 //@   props C03 C08 C14 C02
 //@   from: C14 anchors.state "root record trailer: i64 offset of the record start, u32 record length, doubled end marker"
 //@   requires len(rootsEnd) >= 12
@@ -283,6 +287,7 @@ package gkvlite
 //@   ensures [C19] reads-only-the-root: io.reads <= old(io.reads) + 1
 
 //@ func (*Store).readRootsScan
+//@   overflow
 //@   props C03 C08 C02 C07 C09 C19
 //@   requires [C05,C18] nolocks: locks == emptyLocks()
 //@   from: C03 statement "re-opening yields the most recent Flush all of whose writes completed"; C08 "terminates"; C07 sentence 1
@@ -430,6 +435,7 @@ package gkvlite
 // item.go
 
 //@ func (*Item).NumValBytes
+//@   overflow
 //@   props C17 C13 C14
 //@   requires [C05,C18] nolocks: locks == emptyLocks()
 //@   requires i != nil && c != nil && c.store != nil
@@ -442,6 +448,7 @@ package gkvlite
 //@   ensures [C17,C13] result == len(i.Key) + vlenOf(c.store, i)
 
 //@ func (*itemLoc).NumBytes
+//@   overflow
 //@   props C13 C17
 //@   requires [C05,C18] nolocks: locks == emptyLocks()
 //@   requires iloc != nil && c != nil && c.store != nil
@@ -998,6 +1005,7 @@ package gkvlite
 //@   ensures [C19] open-reads-only-the-root-record: result1 == nil && result0.file != nil && result0.size > 0 ==> io.reads <= old(io.reads) + 2 * (flen[file] - result0.size) + 2
 
 //@ func (*Store).FlushRevert
+//@   overflow
 //@   props C08 C04 C09 C07 C03
 //@   from: C08 statement; C09 W2 ("truncated only by FlushRevert on the writable store and only to the end of a root record (or to zero length)"); C04 (a snapshot's FlushRevert has no file effect)
 //@   requires s != nil && locks == emptyLocks()
@@ -1065,6 +1073,7 @@ package gkvlite
 //@   ensures (r < 0) == (ord(a) < ord(b)) && (r == 0) == (ord(a) == ord(b))
 
 //@ func numInfo
+//@   overflow
 //@   props C13 C07 C19 C01
 //@   requires [C05,C18] nolocks: locks == emptyLocks()
 //@   requires o != nil
@@ -1591,6 +1600,7 @@ package gkvlite
 //@   ensures [C15] releases-the-reference-it-took: orphans == old(orphans)
 
 //@ func (*Collection).determineBlocks
+//@   overflow
 //@   props C16 C07
 //@   from: C16 ("sizes that are not a multiple of the internal block length or that exceed the maximum block count"): blocks of leng+1 items, at most MaxBlockCnt of them, cover cnt items
 //@   requires [C05,C18] nolocks: locks == emptyLocks()
@@ -1680,6 +1690,7 @@ package gkvlite
 //@   from: A9-style neutrality: a block reordering callback returns some slice of keys and touches nothing of the store
 
 //@ func (*Collection).VisitItemsAscendBlockEx$1
+//@   overflow
 //@   props C16 C06
 //@   from: the block-start collector of the first pass; handed to VisitItemsAscendEx as its visitor, so it must satisfy the ItemVisitorEx contract (the ghost prologue writes the log entry); it never stops the visit
 //@   requires i != nil && j != nil && blockStore != nil && lenBlock != nil && locks == emptyLocks()
@@ -1695,6 +1706,7 @@ package gkvlite
 //@   ensures [C16] visitor-invariant-kept: forall z {vinv(self, z)} {old(vinv(self, z))} :: old(vinv(self, z)) ==> vinv(self, z)
 
 //@ func (*Collection).VisitItemsAscendBlockEx$2
+//@   overflow
 //@   props C16 C06 C07
 //@   from: the per-block visitor of the second pass; handed to VisitItemsAscendEx as its visitor, so it must satisfy the ItemVisitorEx contract: it passes the item on to the caller's visitor and stops the visit after lenBlock+1 items; the "impossible" panic is unreachable because the counter never exceeds lenBlock
 //@   requires i != nil && j != nil && lenBlock != nil && visitor != nil && deref(visitor) != nil && locks == emptyLocks() && j != visitor && j != lenBlock
